@@ -71,9 +71,16 @@ def main():
             for e in v.iter_errors(req["doc"]):
                 want = SHAPE.get(e.validator)
                 bad = want is not None and (not isinstance(e.validator_value, want) or isinstance(e.validator_value, bool) and want is int)
-                errs.append({"kw": e.validator, "malformed": bad, "at": [str(x) for x in e.absolute_path],
-                             "schema_path": [str(x) for x in e.absolute_schema_path][-6:], "msg": e.message[:160]})
-                if len(errs) >= 20:
+                d = {"kw": e.validator, "malformed": bad, "at": [str(x) for x in e.absolute_path],
+                     "schema_path": [str(x) for x in e.absolute_schema_path][-6:], "msg": e.message[:160]}
+                if e.instance is None or isinstance(e.instance, (str, bool, int, float)):
+                    d["value"] = e.instance
+                if isinstance(e.schema, dict) and isinstance(e.schema.get("pattern"), str):
+                    d["leaf_pattern"] = e.schema["pattern"]
+                if isinstance(e.validator_value, (str, int)) and not isinstance(e.validator_value, bool):
+                    d["kw_value"] = e.validator_value
+                errs.append(d)
+                if len(errs) >= 40:
                     break
         except Exception as ex:  # an ill-typed keyword can make the library itself fail
             crashed = "%s: %s" % (type(ex).__name__, str(ex)[:160])
@@ -84,7 +91,7 @@ def main():
             verdict = "undetermined"
         else:
             verdict = "valid"
-        r = {"v": verdict, "errors": errs[:6]}
+        r = {"v": verdict, "errors": errs}
         if crashed:
             r["crashed"] = crashed
         out.write(json.dumps(r) + "\n")
